@@ -330,6 +330,9 @@ func (v *VLA) Unmarshal(payload []byte) (int, error) {
 		payload: payload,
 	}
 
+	v.ActiveSpatialLayer = nil
+	v.HasResolutionAndFramerate = false
+
 	err := v.unmarshalSpatialLayers(ctx)
 	if err != nil {
 		return ctx.offset, err
